@@ -173,8 +173,33 @@ Definition expected_cells (ctx : rctx) (cells : list ccell) (wraps : bool) (w : 
   let ex := ref_expand ctx cells in
   if wraps then ref_printable ctx ex else ref_nowrap ctx w ex 0.
 
+(* the view is transposed with respect to the canvas iff it was transposed an odd number of times *)
 Fixpoint has_transpose (ops : list vop) : bool :=
-  match ops with [] => false | OpT :: _ => true | _ :: t => has_transpose t end.
+  match ops with [] => false | OpT :: t => negb (has_transpose t) | _ :: t => has_transpose t end.
+
+(* rows a text needs on lines of width w, from kinds, widths and heights alone: the gate of the
+   no-lost-cell clause (the constraint did not cut the text) no longer asks the implementation *)
+Definition ref_cell_height (c : ccell) : nat :=
+  match c_kind c with KChar _ => 1%nat | KGlyph _ h _ _ => h | KImage _ h _ => h end.
+
+Fixpoint ref_rows (ctx : rctx) (wraps : bool) (w : nat) (cs : list ccell) (row col rows : nat) : nat :=
+  match cs with
+  | [] => rows
+  | c :: t =>
+      match ref_width ctx c with
+      | None =>
+          match c_kind c with
+          | KChar 10 => ref_rows ctx wraps w t (row + 1) 0 (Nat.max rows (row + 1))
+          | KChar 9 => ref_rows ctx wraps w t row (Nat.min w ((col / 8 + 1) * 8)) rows
+          | _ => ref_rows ctx wraps w t row 0 rows
+          end
+      | Some 0%nat => ref_rows ctx wraps w t row col rows
+      | Some cwid =>
+          if (col + cwid <=? w)%nat then ref_rows ctx wraps w t row (col + cwid) (Nat.max rows (row + ref_cell_height c))
+          else if wraps then ref_rows ctx wraps w t (row + 1) (Nat.min cwid w) (Nat.max rows (row + 1 + ref_cell_height c))
+          else ref_rows ctx wraps w t row col rows
+      end
+  end.
 
 (* a placed cell shows its kind; on views whose offsets grow in reading order (no transposition) also
    its face laid over the face the sentinel had (nothing else touches a placed cell: the face fill of
@@ -202,9 +227,11 @@ Definition holds_t (H W : nat) (vops : list vop) (ctx : rctx) (cells : list ccel
       let cells_in := win_cells W sub in
       outside_intact (H * W) cells_in canvas
       && (minh <=? h) && (h <=? maxh) && (minw <=? w) && (w <=? maxw)
-      (* judged whenever the constraint did not cut the height (exact fit included) and the
-         reported rectangle lies inside the view *)
-      && (if (1 <=? maxw) && negb (ref_has_cr (ref_expand ctx cells)) && (nat_h <=? maxh)
+      (* judged whenever the constraint did not cut the height (exact fit included; decided by the
+         reference row count, not by asking the implementation) and the reported rectangle lies inside
+         the view *)
+      && (if (1 <=? maxw) && negb (ref_has_cr (ref_expand ctx cells))
+             && (ref_rows ctx wraps maxw (ref_expand ctx cells) 0 0 0 <=? maxh)
              && (pr + h <=? w_h w0) && (pc + w <=? w_w w0)
           then all2 (cell_matches (negb (has_transpose vops))) (visible (H * W) cells_in canvas)
                     (expected_cells ctx cells wraps w)
@@ -240,11 +267,11 @@ Definition jres_eqb (a b : jres) : bool :=
    document in document order, nothing else; the writing face is the default one afterwards *)
 Fixpoint doc_kinds (t : jtext) {struct t} : list kind :=
   match t with
-  | JStr chars => map KChar chars
-  | JArr items => flat_map doc_kinds items
-  | JObj _ _ (JBGlyph k) => [k]
-  | JObj _ _ (JBText t') => doc_kinds t'
-  | JObj _ _ JBNone => []
+  | TxStr chars => map KChar chars
+  | TxArr items => flat_map doc_kinds items
+  | TxObj _ _ (JBGlyph k _) => [k]       (* the "text" of a glyph object is not part of the text *)
+  | TxObj _ _ (JBText t') => doc_kinds t'
+  | TxObj _ _ JBNone => []
   end.
 
 Definition holds_j (doc : jtext) (impl : jres) : bool :=
